@@ -192,14 +192,21 @@ def check_echo(prog, rep, body, req_arg, site):
                     if c_["path"].endswith("BLOCK_OPTIONS_MAX_LENGTH"):
                         R_ = int(c_["int"])
                 if len(us) == 3 and R_ is not None:
-                    s.ghost["room"] = us[2].aff - (us[0].aff + R_ - us[1].aff)
+                    # the first size is the measured size of the whole message, or of the message without its payload
+                    # (C10.5 decides which, from the measurement it is built from)
+                    bare = [x for x, co in us[0].aff.t if co == 1 and len(I_.syminfo.get(x) or ()) > 3
+                            and I_.syminfo[x][:2] == ("len", "encoded") and I_.syminfo[x][3] == "bare"]
+                    if bare and us[0].aff == Aff.sym(bare[0]):
+                        s.ghost["room"] = us[2].aff - (us[0].aff + R_)
+                    else:
+                        s.ghost["room"] = us[2].aff - (us[0].aff + R_ - us[1].aff)
             if call.path in ("core::cmp::min", "core::cmp::Ord::min") and call.ctx.body["path"].startswith("block_handler::") and len(call.args) == 2:
-                # the property's domain: "budgets that admit the client's block size" - where the client's size meets the
-                # budget bound (C10.1 decides what that bound is), the bound is assumed to be at least the client's size
+                # the property's domain: "budgets that admit the client's block size" - the room the budget leaves for a
+                # block (from the negotiation's own arguments) is assumed to be at least the client's size
                 cl = [a for a in call.args if isinstance(a, IntV) and a.origin is not None and a.origin[0] == "shl"]
-                ot = [a for a in call.args if isinstance(a, IntV) and not (a.origin is not None and a.origin[0] == "shl")]
-                if len(cl) == 1 and len(ot) == 1:
-                    s.add_fact(ot[0].aff - cl[0].aff)
+                room = s.ghost.get("room")
+                if len(cl) == 1 and room is not None:
+                    s.add_fact(room - cl[0].aff)
                     s.ghost[("inj", "domain-admits-client-size")] = True
         I.call_hooks.insert(0, hook)
     tr = Trace(prog, None, body=body, req_arg=req_arg, setup=setup)
